@@ -33,6 +33,8 @@ def load_known(prop):
             line = line.strip()
             if not line or line.startswith('#'):
                 continue
+            if line.startswith('fixed:'):
+                continue        # repaired defects suppress nothing
             e = json.loads(line)
             if e.get('property') == prop:
                 out.append(e)
